@@ -11,15 +11,22 @@ Section MsgInd.
   Hypothesis HE : forall a s cs wf, Q (EditSudoers a s cs wf).
   Hypothesis HC : forall s n, Q (ChangeRoot s n).
   Hypothesis HG : forall k s pv, Q (Gated k s pv).
-  Hypothesis HX : forall g ms, Forall Q ms -> Q (Exec g ms).
+  Hypothesis HX : forall ge ms, Forall Q ms -> Q (Exec ge ms).
+  Hypothesis HW : forall sd c ms, Forall Q ms -> Q (Wasm sd c ms).
 
   Fixpoint msg_ind' (m : msg) : Q m :=
     match m with
     | EditSudoers a s cs wf => HE a s cs wf
     | ChangeRoot s n => HC s n
     | Gated k s pv => HG k s pv
-    | Exec g ms =>
-        HX g ms ((fix go (l : list msg) : Forall Q l :=
+    | Exec ge ms =>
+        HX ge ms ((fix go (l : list msg) : Forall Q l :=
+                    match l with
+                    | [] => Forall_nil Q
+                    | x :: r => Forall_cons x (msg_ind' x) (go r)
+                    end) ms)
+    | Wasm sd c ms =>
+        HW sd c ms ((fix go (l : list msg) : Forall Q l :=
                     match l with
                     | [] => Forall_nil Q
                     | x :: r => Forall_cons x (msg_ind' x) (go r)
@@ -29,12 +36,25 @@ End MsgInd.
 
 (* ------------------------------------------------------------------ basic facts *)
 
-Lemma exec_leaf g s m : is_leaf m = true -> exec_msg g s m = handle_leaf s m.
+Lemma exec_leaf cf s m : is_leaf m = true -> exec_msg cf s m = handle_leaf s m.
 Proof. destruct m; simpl; auto; discriminate. Qed.
 
-Lemma exec_Exec g s ge ms :
-  exec_msg g s (Exec ge ms) =
-  match ms with [] => None | _ => dispatch (fun s' m' => exec_msg g s' m') g ge s ms end.
+Lemma exec_Exec cf s ge ms :
+  exec_msg cf s (Exec ge ms) =
+  match ms with
+  | [] => None
+  | _ => dispatch (fun s' m' => exec_msg cf s' m') (dispatch_ok (c_grants cf) ge) s ms
+  end.
+Proof. destruct ms; reflexivity. Qed.
+
+Lemma exec_Wasm cf s sd c ms :
+  exec_msg cf s (Wasm sd c ms) =
+  match ms with
+  | [] => None
+  | _ => if owner_ok cf c sd
+         then dispatch (fun s' m' => exec_msg cf s' m') (wasm_ok (c_wguard cf) c) s ms
+         else None
+  end.
 Proof. destruct ms; reflexivity. Qed.
 
 Lemma leaves_leaf m : is_leaf m = true -> leaves m = [m].
@@ -47,31 +67,40 @@ Proof.
   destruct (handle_leaf s m); auto.
 Qed.
 
-(** the authz layer only ever removes behaviours: whatever a message tree does, the plain
-    sequence of its leaves does too *)
-Lemma exec_flatten g : forall m s s', exec_msg g s m = Some s' -> run_leaves s (leaves m) = Some s'.
+(** a carrier only ever removes behaviours: whatever its inner messages do, the plain sequence of
+    their leaves does too — whatever the carrier's entry test *)
+Lemma dispatch_flatten (f : st -> msg -> option st) (ok : msg -> bool) : forall l s s',
+  Forall (fun m => forall s s', f s m = Some s' -> run_leaves s (leaves m) = Some s') l ->
+  dispatch f ok s l = Some s' -> run_leaves s (flat_map leaves l) = Some s'.
 Proof.
-  induction m as [a sd cs wf | sd n | k sd pv | ge ms IH] using msg_ind'; intros s s' H;
-    try (simpl in *; rewrite H; reflexivity).
-  rewrite exec_Exec in H. simpl leaves.
-  assert (Hgo : forall l s s', Forall (fun m => forall s s', exec_msg g s m = Some s' -> run_leaves s (leaves m) = Some s') l ->
-                dispatch (fun s' m' => exec_msg g s' m') g ge s l = Some s' ->
-                run_leaves s (flat_map leaves l) = Some s').
-  { clear. induction l as [|x r IHr]; intros s s' HF H; simpl in *.
-    - exact H.
-    - inversion HF as [|? ? Hx Hr]; subst.
-      destruct (dispatch_ok g ge x); try discriminate.
-      destruct (exec_msg g s x) as [s1|] eqn:E; try discriminate.
-      rewrite run_leaves_app, (Hx _ _ E). apply IHr; auto. }
-  destruct ms as [|m0 r]; try discriminate.
-  apply Hgo; auto.
+  induction l as [|x r IHr]; intros s s' HF H; simpl in *.
+  - exact H.
+  - inversion HF as [|? ? Hx Hr]; subst.
+    destruct (ok x); try discriminate.
+    destruct (f s x) as [s1|] eqn:E; try discriminate.
+    rewrite run_leaves_app, (Hx _ _ E). apply IHr; auto.
 Qed.
 
-Lemma run_msgs_flatten g : forall tx s s', run_msgs g s tx = Some s' -> run_leaves s (leaves_tx tx) = Some s'.
+(** the carrier layers (authz, contract dispatch) never add behaviours: whatever a message tree
+    does, the plain sequence of its leaves does too *)
+Lemma exec_flatten cf : forall m s s', exec_msg cf s m = Some s' -> run_leaves s (leaves m) = Some s'.
+Proof.
+  induction m as [a sd cs wf | sd n | k sd pv | ge ms IH | sd c ms IH] using msg_ind'; intros s s' H;
+    try (simpl in *; rewrite H; reflexivity).
+  - rewrite exec_Exec in H. simpl leaves.
+    destruct ms as [|m0 r]; try discriminate.
+    eapply dispatch_flatten; eauto.
+  - rewrite exec_Wasm in H. simpl leaves.
+    destruct ms as [|m0 r]; try discriminate.
+    destruct (owner_ok cf c sd); try discriminate.
+    eapply dispatch_flatten; eauto.
+Qed.
+
+Lemma run_msgs_flatten cf : forall tx s s', run_msgs cf s tx = Some s' -> run_leaves s (leaves_tx tx) = Some s'.
 Proof.
   induction tx as [|m r IH]; intros s s' H; simpl in *; auto.
-  destruct (exec_msg g s m) as [s1|] eqn:E; try discriminate.
-  rewrite run_leaves_app, (exec_flatten g _ _ _ E). auto.
+  destruct (exec_msg cf s m) as [s1|] eqn:E; try discriminate.
+  rewrite run_leaves_app, (exec_flatten cf _ _ _ E). auto.
 Qed.
 
 Lemma handle_leaf_is_leaf s m s' : handle_leaf s m = Some s' -> is_leaf m = true.
@@ -81,7 +110,7 @@ Proof. destruct m; simpl; auto; discriminate. Qed.
 Lemma handle_leaf_authorised s m s' :
   handle_leaf s m = Some s' -> authorised (root s) (contracts s) m.
 Proof.
-  destruct m as [a sd cs wf | sd n | k sd pv | ge ms]; simpl; try discriminate.
+  destruct m as [a sd cs wf | sd n | k sd pv | ge ms | wsd wc wms]; simpl; try discriminate.
   - destruct a; try discriminate;
       destruct ((sd =? root s) && wf) eqn:E; try discriminate; intros _;
       apply andb_true_iff in E as [E1 E2]; apply Nat.eqb_eq in E1; auto.
@@ -94,7 +123,7 @@ Qed.
 Lemma authorised_handle s m :
   is_leaf m = true -> authorised (root s) (contracts s) m -> exists s', handle_leaf s m = Some s'.
 Proof.
-  destruct m as [a sd cs wf | sd n | k sd pv | ge ms]; simpl; try discriminate; intros _ H.
+  destruct m as [a sd cs wf | sd n | k sd pv | ge ms | wsd wc wms]; simpl; try discriminate; intros _ H.
   - destruct a; try contradiction; destruct H as [H1 H2]; subst;
       rewrite Nat.eqb_refl; simpl; eexists; reflexivity.
   - subst. rewrite Nat.eqb_refl. eexists; reflexivity.
@@ -129,7 +158,7 @@ Lemma handle_leaf_frame s m s' :
   (writes_meta m = false -> w_meta s' = w_meta s).
 Proof.
   unfold same_sudoers.
-  destruct m as [a sd cs wf | sd n | k sd pv | ge ms]; simpl; try discriminate.
+  destruct m as [a sd cs wf | sd n | k sd pv | ge ms | wsd wc wms]; simpl; try discriminate.
   - destruct a; try discriminate; destruct ((sd =? root s) && wf); try discriminate;
       intro H; inversion H; subst; simpl; repeat split; auto; discriminate.
   - destruct (sd =? root s); try discriminate. intro H; inversion H; subst; simpl.
@@ -164,7 +193,7 @@ Proof.
     destruct (is_edit x) eqn:Ee.
     + exists x. split; [left; auto|]. split; auto.
       pose proof (handle_leaf_authorised _ _ _ Hx) as Ha.
-      destruct x as [a sd cs wf | sd n | k sd pv | ge ms]; simpl in *; try discriminate.
+      destruct x as [a sd cs wf | sd n | k sd pv | ge ms | wsd wc wms]; simpl in *; try discriminate.
       * destruct a; simpl in Ha; tauto.
       * exact Ha.
     + destruct (handle_leaf_frame _ _ _ Hx) as [Hs _]. specialize (Hs Ee).
@@ -190,7 +219,7 @@ Qed.
 Lemma handle_leaf_effect s m s' :
   handle_leaf s m = Some s' -> (root s', contracts s') = apply_edit (root s, contracts s) m.
 Proof.
-  destruct m as [a sd cs wf | sd n | k sd pv | ge ms]; simpl; try discriminate.
+  destruct m as [a sd cs wf | sd n | k sd pv | ge ms | wsd wc wms]; simpl; try discriminate.
   - destruct a; try discriminate; destruct ((sd =? root s) && wf); try discriminate;
       intro H; inversion H; subst; reflexivity.
   - destruct (sd =? root s); try discriminate. intro H; inversion H; subst; reflexivity.
@@ -210,38 +239,75 @@ Qed.
 
 Lemma single_leaf_leaves : forall m l, single_leaf m = Some l -> leaves m = [l] /\ is_leaf l = true.
 Proof.
-  induction m as [a sd cs wf | sd n | k sd pv | ge ms IH] using msg_ind'; intros l H; simpl in H;
-    try (inversion H; subst; simpl; auto).
-  destruct ms as [|x [|y r]]; try discriminate.
-  inversion IH as [|? ? Hx _]; subst. simpl. rewrite app_nil_r. apply Hx. exact H.
+  induction m as [a sd cs wf | sd n | k sd pv | ge ms IH | wsd wc ms IH] using msg_ind'; intros l H; simpl in H;
+    try (inversion H; subst; simpl; auto; fail).
+  - destruct ms as [|x [|y r]]; try discriminate.
+    inversion IH as [|? ? Hx _]; subst. simpl. rewrite app_nil_r. apply Hx. exact H.
+  - destruct ms as [|x [|y r]]; try discriminate.
+    inversion IH as [|? ? Hx _]; subst. simpl. rewrite app_nil_r. apply Hx. exact H.
 Qed.
 
 (** C16_gated_iff_permitted, direct form *)
-Lemma gated_iff_permitted g s k a pv :
-  (exists s', exec_msg g s (Gated k a pv) = Some s') <-> permitted s a = true /\ pv = true.
+Lemma gated_iff_permitted cf s k a pv :
+  (exists s', exec_msg cf s (Gated k a pv) = Some s') <-> permitted s a = true /\ pv = true.
 Proof.
   simpl. split.
   - intros [s' H]. destruct (permitted s a && pv) eqn:E; try discriminate. apply andb_true_iff in E. exact E.
   - intros [H1 H2]. rewrite H1, H2. eexists; reflexivity.
 Qed.
 
-Lemma gated_effect g s k a pv s' : exec_msg g s (Gated k a pv) = Some s' -> s' = bump k s.
+Lemma gated_effect cf s k a pv s' : exec_msg cf s (Gated k a pv) = Some s' -> s' = bump k s.
 Proof. simpl. destruct (permitted s a && pv); intro H; inversion H; auto. Qed.
 
 (** wrapped once in MsgExec: exactly the authz condition on top *)
-Lemma gated_exec_iff g s ge k a pv :
-  (exists s', exec_msg g s (Exec ge [Gated k a pv]) = Some s') <->
-  (a = ge \/ has_grant g a ge (KGated k) = true) /\ permitted s a = true /\ pv = true.
+Lemma gated_exec_iff cf s ge k a pv :
+  (exists s', exec_msg cf s (Exec ge [Gated k a pv]) = Some s') <->
+  (a = ge \/ has_grant (c_grants cf) a ge (KGated k) = true) /\ permitted s a = true /\ pv = true.
 Proof.
   rewrite exec_Exec. simpl. unfold dispatch_ok. simpl. split.
   - intros [s' H].
-    destruct ((a =? ge) || has_grant g a ge (KGated k)) eqn:D; try discriminate.
+    destruct ((a =? ge) || has_grant (c_grants cf) a ge (KGated k)) eqn:D; try discriminate.
     destruct (permitted s a && pv) eqn:E; try discriminate.
     apply orb_true_iff in D. rewrite Nat.eqb_eq in D. apply andb_true_iff in E. tauto.
   - intros [D [H1 H2]].
-    assert (D' : (a =? ge) || has_grant g a ge (KGated k) = true).
+    assert (D' : (a =? ge) || has_grant (c_grants cf) a ge (KGated k) = true).
     { apply orb_true_iff. rewrite Nat.eqb_eq. exact D. }
     rewrite D', H1, H2. simpl. eexists; reflexivity.
+Qed.
+
+(** dispatched by a contract: the contract is the sender — its own listing counts, nobody else's.
+    (a gated message is not a wrapper, so this holds whatever the wrapper guard does) *)
+Lemma gated_wasm_iff cf s sd c k a pv :
+  (exists s', exec_msg cf s (Wasm sd c [Gated k a pv]) = Some s') <->
+  owner_ok cf c sd = true /\ a = c /\ permitted s a = true /\ pv = true.
+Proof.
+  rewrite exec_Wasm. unfold wasm_ok. simpl. rewrite andb_false_r, orb_false_r. split.
+  - intros [s' H].
+    destruct (owner_ok cf c sd); try discriminate. simpl in H.
+    destruct (a =? c) eqn:D; try discriminate.
+    destruct (permitted s a && pv) eqn:E; try discriminate.
+    apply Nat.eqb_eq in D. apply andb_true_iff in E. tauto.
+  - intros [Ho [D [H1 H2]]]. subst a. rewrite Ho, Nat.eqb_refl, H1, H2. simpl. eexists; reflexivity.
+Qed.
+
+(** a contract dispatching a MsgExec: the exec's grantee must be the contract itself, and then the
+    authz condition is about the contract — a spoofed grantee gets nothing through *)
+Lemma gated_wasm_exec_iff cf s sd c ge k a pv :
+  c_wguard cf = true ->
+  ((exists s', exec_msg cf s (Wasm sd c [Exec ge [Gated k a pv]]) = Some s') <->
+   owner_ok cf c sd = true /\ ge = c /\
+   (a = c \/ has_grant (c_grants cf) a c (KGated k) = true) /\ permitted s a = true /\ pv = true).
+Proof.
+  intro Hg. rewrite exec_Wasm. unfold wasm_ok. rewrite Hg.
+  cbn [dispatch signer negb andb orb is_exec]. rewrite orb_false_r. split.
+  - intros [s' H].
+    destruct (owner_ok cf c sd); try discriminate.
+    destruct (ge =? c) eqn:D; try discriminate. apply Nat.eqb_eq in D. subst ge.
+    destruct (exec_msg cf s (Exec c [Gated k a pv])) as [s1|] eqn:E; try discriminate.
+    destruct (proj1 (gated_exec_iff cf s c k a pv) (ex_intro _ s1 E)) as (H1 & H2 & H3). tauto.
+  - intros (Ho & D & H1 & H2 & H3). subst ge. rewrite Ho, Nat.eqb_refl.
+    destruct (proj2 (gated_exec_iff cf s c k a pv) (conj H1 (conj H2 H3))) as [s1 E].
+    rewrite E. eexists; reflexivity.
 Qed.
 
 (** C16_root_only_edits, handler form *)
@@ -249,63 +315,66 @@ Lemma root_only_edits_leaf s m s' :
   is_edit m = true -> handle_leaf s m = Some s' -> signer m = root s.
 Proof.
   intros He H. pose proof (handle_leaf_authorised _ _ _ H) as Ha.
-  destruct m as [a sd cs wf | sd n | k sd pv | ge ms]; simpl in *; try discriminate.
+  destruct m as [a sd cs wf | sd n | k sd pv | ge ms | wsd wc wms]; simpl in *; try discriminate.
   - destruct a; simpl in Ha; tauto.
   - exact Ha.
 Qed.
 
 (* ------------------------------------------------------------------ deliver *)
 
-Lemma deliver_rejected g s tx : snd (deliver g s tx) = false -> fst (deliver g s tx) = s.
+Lemma deliver_rejected cf s tx : snd (deliver cf s tx) = false -> fst (deliver cf s tx) = s.
 Proof.
-  unfold deliver. destruct tx as [|m r]; simpl; auto.
-  destruct (match exec_msg g s m with Some s' => run_msgs g s' r | None => None end); simpl; auto.
+  unfold deliver. destruct tx as [|m r]; auto.
+  destruct (signable cf (m :: r)); auto.
+  destruct (run_msgs cf s (m :: r)); simpl; auto.
   discriminate.
 Qed.
 
-Lemma deliver_ok g s tx s' :
-  deliver g s tx = (s', true) -> tx <> [] /\ run_msgs g s tx = Some s'.
+Lemma deliver_ok cf s tx s' :
+  deliver cf s tx = (s', true) -> tx <> [] /\ signable cf tx = true /\ run_msgs cf s tx = Some s'.
 Proof.
   unfold deliver. destruct tx as [|m r]; [intro H; inversion H|].
-  destruct (run_msgs g s (m :: r)) as [s1|] eqn:E; intro H; inversion H; subst.
-  split; auto. discriminate.
+  destruct (signable cf (m :: r)); [|intro H; inversion H].
+  destruct (run_msgs cf s (m :: r)) as [s1|] eqn:E; intro H; inversion H; subst.
+  split; [discriminate|]. split; auto.
 Qed.
 
 (** a tx with a failing message discards what earlier messages of the same tx wrote *)
-Lemma deliver_atomic g s pre m post :
-  (forall s1, run_msgs g s pre = Some s1 -> exec_msg g s1 m = None) ->
-  deliver g s (pre ++ m :: post) = (s, false).
+Lemma deliver_atomic cf s pre m post :
+  (forall s1, run_msgs cf s pre = Some s1 -> exec_msg cf s1 m = None) ->
+  deliver cf s (pre ++ m :: post) = (s, false).
 Proof.
   intro H. unfold deliver.
-  assert (E : run_msgs g s (pre ++ m :: post) = None).
+  assert (E : run_msgs cf s (pre ++ m :: post) = None).
   { revert s H. induction pre as [|x pre IH]; intros s H; simpl.
     - rewrite (H s eq_refl). reflexivity.
-    - destruct (exec_msg g s x) as [sx|] eqn:Ex; auto. apply IH. intros s1 H1. apply H. simpl. rewrite Ex. exact H1. }
-  rewrite E. destruct (pre ++ m :: post); reflexivity.
+    - destruct (exec_msg cf s x) as [sx|] eqn:Ex; auto. apply IH. intros s1 H1. apply H. simpl. rewrite Ex. exact H1. }
+  rewrite E. destruct (pre ++ m :: post); [reflexivity|].
+  destruct (signable cf (m0 :: l)); reflexivity.
 Qed.
 
 (** C16_root_only_edits, tx form: the sudoers differ after a tx only if it carried an edit signed
     by the root in force before the tx *)
-Lemma deliver_sudoers_change g s tx :
-  ~ same_sudoers (fst (deliver g s tx)) s ->
-  snd (deliver g s tx) = true /\
+Lemma deliver_sudoers_change cf s tx :
+  ~ same_sudoers (fst (deliver cf s tx)) s ->
+  snd (deliver cf s tx) = true /\
   exists m, In m (leaves_tx tx) /\ is_edit m = true /\ signer m = root s.
 Proof.
-  intro Hne. destruct (deliver g s tx) as [s' ok] eqn:D. simpl in *.
+  intro Hne. destruct (deliver cf s tx) as [s' ok] eqn:D. simpl in *.
   destruct ok.
-  - split; auto. apply deliver_ok in D as [_ R]. apply run_msgs_flatten in R.
+  - split; auto. apply deliver_ok in D as (_ & _ & R). apply run_msgs_flatten in R.
     eapply run_leaves_sudoers_change; eauto.
-  - pose proof (deliver_rejected g s tx) as Hr. rewrite D in Hr. simpl in Hr.
+  - pose proof (deliver_rejected cf s tx) as Hr. rewrite D in Hr. simpl in Hr.
     rewrite (Hr eq_refl) in Hne. exfalso. apply Hne. split; auto.
 Qed.
 
 (** every leaf of an accepted tx, at any MsgExec depth, was authorised in the state it ran in *)
-Lemma deliver_each_leaf_authorised g s tx s' :
-  deliver g s tx = (s', true) ->
+Lemma deliver_each_leaf_authorised cf s tx s' :
+  deliver cf s tx = (s', true) ->
   forall l1 m l2, leaves_tx tx = l1 ++ m :: l2 ->
   exists s1, run_leaves s l1 = Some s1 /\ authorised (root s1) (contracts s1) m.
 Proof.
-  intros D. apply deliver_ok in D as [_ R]. apply run_msgs_flatten in R.
+  intros D. apply deliver_ok in D as (_ & _ & R). apply run_msgs_flatten in R.
   eapply run_leaves_each_authorised; eauto.
 Qed.
 
@@ -354,7 +423,7 @@ Lemma handle_leaf_keeps_unpermitted s m s' a :
   handle_leaf s m = Some s' -> permitted s a = false -> grants_to a m = false -> permitted s' a = false.
 Proof.
   unfold permitted.
-  destruct m as [ac sd cs wf | sd n | k sd pv | ge ms]; simpl; try discriminate.
+  destruct m as [ac sd cs wf | sd n | k sd pv | ge ms | wsd wc wms]; simpl; try discriminate.
   - destruct ac; try discriminate; destruct ((sd =? root s) && wf); try discriminate;
       intro H; inversion H; subst; simpl; intros Hp Hg.
     + rewrite mem_fold_insert, Hg. exact Hp.
@@ -377,24 +446,24 @@ Proof.
 Qed.
 
 (** an account without permission cannot get a privileged leaf through, however it is wrapped *)
-Lemma unpermitted_first_leaf_rejected g s tx a m r :
-  permitted s a = false -> leaves_tx tx = m :: r -> signer m = a -> deliver g s tx = (s, false).
+Lemma unpermitted_first_leaf_rejected cf s tx a m r :
+  permitted s a = false -> leaves_tx tx = m :: r -> signer m = a -> deliver cf s tx = (s, false).
 Proof.
   intros Hp Hl Hs.
-  destruct (deliver g s tx) as [s' ok] eqn:D. destruct ok.
-  - exfalso. destruct (deliver_each_leaf_authorised g s tx s' D [] m r Hl) as (s1 & H1 & Ha).
+  destruct (deliver cf s tx) as [s' ok] eqn:D. destruct ok.
+  - exfalso. destruct (deliver_each_leaf_authorised cf s tx s' D [] m r Hl) as (s1 & H1 & Ha).
     simpl in H1. inversion H1; subst s1.
-    pose proof (deliver_ok _ _ _ _ D) as [_ R]. apply run_msgs_flatten in R. rewrite Hl in R. simpl in R.
+    pose proof (deliver_ok _ _ _ _ D) as (_ & _ & R). apply run_msgs_flatten in R. rewrite Hl in R. simpl in R.
     destruct (handle_leaf s m) as [sm|] eqn:Hm; try discriminate.
     pose proof (handle_leaf_is_leaf _ _ _ Hm) as Hleaf.
     unfold permitted in Hp. apply orb_false_iff in Hp as [Hp1 Hp2].
-    destruct m as [ac sd cs wf | sd n | k sd pv | ge ms]; simpl in *; try discriminate; subst.
+    destruct m as [ac sd cs wf | sd n | k sd pv | ge ms | wsd wc wms]; simpl in *; try discriminate; subst.
     + destruct ac; simpl in Ha; try tauto; destruct Ha as [Ha _]; subst; rewrite Nat.eqb_refl in Hp2; discriminate.
     + rewrite Nat.eqb_refl in Hp2; discriminate.
     + destruct Ha as [[Ha|Ha] _].
       * apply mem_In in Ha. congruence.
       * subst. rewrite Nat.eqb_refl in Hp2. discriminate.
-  - pose proof (deliver_rejected g s tx) as Hr. rewrite D in Hr. simpl in Hr. rewrite (Hr eq_refl). reflexivity.
+  - pose proof (deliver_rejected cf s tx) as Hr. rewrite D in Hr. simpl in Hr. rewrite (Hr eq_refl). reflexivity.
 Qed.
 
 (** ChangeRoot demotes the former root (unless it is also a listed contract or names itself) *)
@@ -430,33 +499,201 @@ Fixpoint first_leaf_by (a : addr) (h : list (list msg)) : list bool :=
   | tx :: r => (match leaves_tx tx with m :: _ => signer m =? a | [] => false end) :: first_leaf_by a r
   end.
 
-Lemma deliver_keeps_unpermitted g s tx a :
+Lemma deliver_keeps_unpermitted cf s tx a :
   permitted s a = false -> forallb (fun m => negb (grants_to a m)) (leaves_tx tx) = true ->
-  permitted (fst (deliver g s tx)) a = false.
+  permitted (fst (deliver cf s tx)) a = false.
 Proof.
-  intros Hp Hg. destruct (deliver g s tx) as [s' ok] eqn:D. simpl. destruct ok.
-  - apply deliver_ok in D as [_ R]. apply run_msgs_flatten in R.
+  intros Hp Hg. destruct (deliver cf s tx) as [s' ok] eqn:D. simpl. destruct ok.
+  - apply deliver_ok in D as (_ & _ & R). apply run_msgs_flatten in R.
     eapply run_leaves_keeps_unpermitted; eauto.
-  - pose proof (deliver_rejected g s tx) as Hr. rewrite D in Hr. simpl in Hr. rewrite (Hr eq_refl). exact Hp.
+  - pose proof (deliver_rejected cf s tx) as Hr. rewrite D in Hr. simpl in Hr. rewrite (Hr eq_refl). exact Hp.
 Qed.
 
-Lemma stale_over_history g a : forall h s,
+Lemma stale_over_history cf a : forall h s,
   permitted s a = false -> no_grant_to a h = true ->
-  permitted (fst (run_history g s h)) a = false /\
-  Forall2 (fun mine ok => mine = true -> ok = false) (first_leaf_by a h) (snd (run_history g s h)).
+  permitted (fst (run_history cf s h)) a = false /\
+  Forall2 (fun mine ok => mine = true -> ok = false) (first_leaf_by a h) (snd (run_history cf s h)).
 Proof.
   induction h as [|tx r IH]; intros s Hp Hg; simpl in *.
   - split; auto.
   - apply andb_true_iff in Hg as [Hg1 Hg2].
-    pose proof (deliver_keeps_unpermitted g s tx a Hp Hg1) as Hp1.
-    destruct (deliver g s tx) as [s1 ok] eqn:D. simpl in Hp1.
+    pose proof (deliver_keeps_unpermitted cf s tx a Hp Hg1) as Hp1.
+    destruct (deliver cf s tx) as [s1 ok] eqn:D. simpl in Hp1.
     destruct (IH s1 Hp1 Hg2) as [IH1 IH2].
-    destruct (run_history g s1 r) as [s2 oks] eqn:R. simpl in *.
+    destruct (run_history cf s1 r) as [s2 oks] eqn:R. simpl in *.
     split; auto. constructor; auto.
     intro Hm. destruct (leaves_tx tx) as [|m l] eqn:L; try discriminate.
     apply Nat.eqb_eq in Hm.
-    rewrite (unpermitted_first_leaf_rejected g s tx a m l Hp L Hm) in D. inversion D; auto.
+    rewrite (unpermitted_first_leaf_rejected cf s tx a m l Hp L Hm) in D. inversion D; auto.
 Qed.
+
+(* ------------------------------------------------------------------ who really authorised *)
+
+Lemma forallb_Forall {A} (f : A -> bool) l : forallb f l = true <-> Forall (fun x => f x = true) l.
+Proof.
+  induction l as [|x l IH]; simpl.
+  - split; auto.
+  - rewrite andb_true_iff, IH. split.
+    + intros [H1 H2]. constructor; auto.
+    + intro H. inversion H; subst. auto.
+Qed.
+
+(** a carrier that ran to completion let in, and ran, every one of its inner messages *)
+Lemma dispatch_each (f : st -> msg -> option st) (ok : msg -> bool) : forall l s s',
+  dispatch f ok s l = Some s' ->
+  Forall (fun m => ok m = true /\ exists s1 s2, f s1 m = Some s2) l.
+Proof.
+  induction l as [|x r IH]; intros s s' H; simpl in H; constructor.
+  - destruct (ok x) eqn:E; try discriminate. split; auto.
+    destruct (f s x) as [s1|] eqn:F; try discriminate. eauto.
+  - destruct (ok x); try discriminate. destruct (f s x) as [s1|]; try discriminate. eauto.
+Qed.
+
+(** with the wrapper guard in place, whatever runs is well-authorised all the way down *)
+Lemma exec_wa cf : c_wguard cf = true ->
+  forall m s s', exec_msg cf s m = Some s' -> wa_b cf (signer m) m = true.
+Proof.
+  intro Hg.
+  induction m as [a sd cs wf | sd n | k sd pv | ge ms IH | sd c ms IH] using msg_ind'; intros s s' H;
+    try (simpl; rewrite Nat.eqb_refl; reflexivity).
+  - rewrite exec_Exec in H. destruct ms as [|m0 r]; try discriminate.
+    apply dispatch_each in H.
+    cbn [wa_b signer]. rewrite Nat.eqb_refl. cbn [andb].
+    apply forallb_Forall. rewrite Forall_forall in *. intros x Hx.
+    destruct (H x Hx) as [Hok (s1 & s2 & Hex)]. rewrite Hok. cbn [andb]. eapply IH; eauto.
+  - rewrite exec_Wasm in H. destruct ms as [|m0 r]; try discriminate.
+    destruct (owner_ok cf c sd) eqn:Ho; try discriminate.
+    apply dispatch_each in H.
+    cbn [wa_b signer]. rewrite Nat.eqb_refl, Ho. cbn [andb].
+    apply forallb_Forall. rewrite Forall_forall in *. intros x Hx.
+    destruct (H x Hx) as [Hok (s1 & s2 & Hex)].
+    unfold wasm_ok in Hok. rewrite Hg in Hok. cbn [negb andb] in Hok. rewrite orb_false_r in Hok.
+    apply Nat.eqb_eq in Hok. rewrite <- Hok. eapply IH; eauto.
+Qed.
+
+Lemma run_msgs_wa cf : c_wguard cf = true ->
+  forall tx s s', run_msgs cf s tx = Some s' -> wa_tx cf tx = true.
+Proof.
+  intro Hg. induction tx as [|m r IH]; intros s s' H; simpl in *; auto.
+  destruct (exec_msg cf s m) as [s1|] eqn:E; try discriminate.
+  unfold wa_tx in *. rewrite (exec_wa cf Hg _ _ _ E). simpl. eauto.
+Qed.
+
+(** every message of an accepted tx — wrappers included, at any depth, whatever mix of authz and
+    contract carriers — is presented by the principal its carrier has authenticated; the top-level
+    ones by accounts that can sign *)
+Lemma deliver_well_authorised cf s tx s' :
+  c_wguard cf = true -> deliver cf s tx = (s', true) -> wa_tx cf tx = true /\ signable cf tx = true.
+Proof.
+  intros Hg D. apply deliver_ok in D as (_ & Hs & R). split; auto. eapply run_msgs_wa; eauto.
+Qed.
+
+(** what well-authorised means for the leaves: the sender of every privileged leaf under a
+    message presented by [p] is [p] itself, or an account that has issued an authz grant, or a
+    contract the tree executes (called by its owner) *)
+Definition is_granter (cf : cfg) (a : addr) : bool := existsb (fun x => g_granter x =? a) (c_grants cf).
+
+Definition backed (cf : cfg) (p : addr) (cs : list addr) (a : addr) : Prop :=
+  a = p \/ is_granter cf a = true \/ (In a cs /\ is_contract cf a = true).
+
+Lemma has_grant_granter cf a ge k : has_grant (c_grants cf) a ge k = true -> is_granter cf a = true.
+Proof.
+  unfold has_grant, is_granter. rewrite !existsb_exists. intros (x & Hin & Hx).
+  exists x. split; auto. rewrite !andb_true_iff in Hx. tauto.
+Qed.
+
+Lemma owner_ok_contract cf c sd : owner_ok cf c sd = true -> is_contract cf c = true.
+Proof.
+  unfold owner_ok, is_contract. rewrite !existsb_exists. intros (x & Hin & Hx).
+  exists x. split; auto. rewrite andb_true_iff in Hx. tauto.
+Qed.
+
+Lemma wa_leaves_backed cf : forall m p, wa_b cf p m = true ->
+  forall l, In l (leaves m) -> backed cf p (executed_contracts m) (signer l).
+Proof.
+  induction m as [a sd cs wf | sd n | k sd pv | ge ms IH | sd c ms IH] using msg_ind'; intros p H l Hl;
+    try (simpl in *; apply andb_true_iff in H as [H _]; apply Nat.eqb_eq in H;
+         destruct Hl as [Hl|[]]; subst l; left; exact H).
+  - cbn [wa_b signer] in H. apply andb_true_iff in H as [Hp H]. apply Nat.eqb_eq in Hp. subst ge.
+    simpl in Hl. apply in_flat_map in Hl as (x & Hx & Hlx).
+    rewrite forallb_forall in H. specialize (H x Hx). apply andb_true_iff in H as [Hd Hw].
+    rewrite Forall_forall in IH. destruct (IH x Hx _ Hw l Hlx) as [E|[E|[E1 E2]]].
+    + unfold dispatch_ok in Hd. apply orb_true_iff in Hd as [Hd|Hd].
+      * apply Nat.eqb_eq in Hd. left. congruence.
+      * right. left. rewrite E. eapply has_grant_granter; eauto.
+    + right. left. exact E.
+    + right. right. split; auto. simpl. apply in_flat_map. eauto.
+  - cbn [wa_b signer] in H. apply andb_true_iff in H as [Hp H]. apply andb_true_iff in H as [Ho H].
+    simpl in Hl. apply in_flat_map in Hl as (x & Hx & Hlx).
+    rewrite forallb_forall in H. specialize (H x Hx).
+    rewrite Forall_forall in IH. destruct (IH x Hx _ H l Hlx) as [E|[E|[E1 E2]]].
+    + right. right. subst. split; [simpl; auto|]. eapply owner_ok_contract; eauto.
+    + right. left. exact E.
+    + right. right. split; auto. simpl. right. apply in_flat_map. eauto.
+Qed.
+
+(** nobody's name is used without its signature, its grant, or its own dispatch: the sender of every
+    privileged leaf of an accepted tx signed the tx, or has issued an authz grant, or is a contract
+    that the tx executes *)
+Lemma deliver_leaf_backed cf s tx s' :
+  c_wguard cf = true -> deliver cf s tx = (s', true) ->
+  forall l, In l (leaves_tx tx) ->
+  exists m, In m tx /\ is_contract cf (signer m) = false /\
+            backed cf (signer m) (executed_contracts m) (signer l).
+Proof.
+  intros Hg D l Hl. destruct (deliver_well_authorised cf s tx s' Hg D) as [Hw Hs].
+  unfold wa_tx in Hw. unfold signable in Hs. rewrite forallb_forall in Hw, Hs.
+  assert (Hx : exists m, In m tx /\ In l (leaves m)).
+  { clear - Hl. induction tx as [|m r IH]; simpl in Hl; [contradiction|].
+    apply in_app_or in Hl as [Hl|Hl]; [exists m; simpl; auto|].
+    destruct (IH Hl) as (m' & H1 & H2). exists m'. simpl; auto. }
+  destruct Hx as (m & Hm & Hlm). exists m. split; auto. split.
+  - specialize (Hs m Hm). apply negb_true_iff in Hs. exact Hs.
+  - eapply wa_leaves_backed; eauto.
+Qed.
+
+(** the whole statement for one privileged leaf of an accepted tx: its sender is a CURRENT sudoer
+    (in the state the leaf ran in) AND really stands behind it *)
+Lemma deliver_leaf_sudoer_and_backed cf s tx s' :
+  c_wguard cf = true -> deliver cf s tx = (s', true) ->
+  forall l1 l l2, leaves_tx tx = l1 ++ l :: l2 ->
+  (exists s1, run_leaves s l1 = Some s1 /\ authorised (root s1) (contracts s1) l) /\
+  (exists m, In m tx /\ is_contract cf (signer m) = false /\
+             backed cf (signer m) (executed_contracts m) (signer l)).
+Proof.
+  intros Hg D l1 l l2 E. split.
+  - eapply deliver_each_leaf_authorised; eauto.
+  - eapply deliver_leaf_backed; eauto. rewrite E. apply in_or_app. right. left. reflexivity.
+Qed.
+
+(** the variant in which handleSdkMessage skips the signer guard for MsgExec wrappers does NOT have
+    the property: contract 7 (owner 3; neither root nor listed, no grants anywhere) dispatches
+    MsgExec{grantee: root}[MsgEditSudoers{sender: root, add 7}] and is listed afterwards *)
+Definition unguarded_cfg : cfg := {| c_grants := []; c_owners := [(7, 3)]; c_wguard := false |}.
+Definition spoof_tx : list msg := [Wasm 3 7 [Exec 0 [EditSudoers Add 0 [7] true]]].
+
+Lemma unguarded_wrapper_refuted :
+  exists cf s tx s',
+    c_wguard cf = false /\ c_grants cf = [] /\
+    permitted s 7 = false /\ deliver cf s tx = (s', true) /\ permitted s' 7 = true /\
+    wa_tx cf tx = false /\
+    (exists l, In l (leaves_tx tx) /\
+       forall m, In m tx -> ~ backed cf (signer m) (executed_contracts m) (signer l)).
+Proof.
+  exists unguarded_cfg, (mk_st 0 [1]), spoof_tx. eexists.
+  repeat split; try (vm_compute; reflexivity).
+  exists (EditSudoers Add 0 [7] true). split; [vm_compute; auto|].
+  intros m [Hm|[]]. subst m. unfold backed. vm_compute. intros [H|[H|[_ H]]]; discriminate.
+Qed.
+
+(** … while the guarded model rejects that very tx, and still lets a LISTED contract act *)
+Example spoof_rejected_when_guarded :
+  deliver (mk_cfg [] [(7, 3)]) (mk_st 0 [1]) spoof_tx = (mk_st 0 [1], false) /\
+  snd (deliver (mk_cfg [] [(7, 3)]) (mk_st 0 [7]) [Wasm 3 7 [Gated GInflToggle 7 true]]) = true /\
+  snd (deliver (mk_cfg [] [(7, 3)]) (mk_st 7 []) [Wasm 3 7 [EditSudoers Add 7 [3] true]]) = true /\
+  snd (deliver (mk_cfg [{| g_granter := 0; g_grantee := 7; g_kind := KEdit |}] [(7, 3)]) (mk_st 0 [])
+         [Wasm 3 7 [Exec 7 [EditSudoers Add 0 [7] true]]]) = true.
+Proof. vm_compute. auto. Qed.
 
 (* ------------------------------------------------------------------ the model satisfies P *)
 
@@ -468,107 +705,150 @@ Definition model_obs (s s' : st) (ok : bool) : obs :=
      o_same_infl := w_infl s' =? w_infl s;
      o_same_meta := w_meta s' =? w_meta s |}.
 
-Fixpoint model_trace (g : list grant) (s : st) (h : list (list msg)) : list (list msg * obs) :=
+Fixpoint model_trace (cf : cfg) (s : st) (h : list (list msg)) : list (list msg * obs) :=
   match h with
   | [] => []
-  | tx :: r => let '(s', ok) := deliver g s tx in (tx, model_obs s s' ok) :: model_trace g s' r
+  | tx :: r => let '(s', ok) := deliver cf s tx in (tx, model_obs s s' ok) :: model_trace cf s' r
   end.
 
-Lemma model_step_P g s tx :
-  step_P (root s) (contracts s) tx (model_obs s (fst (deliver g s tx)) (snd (deliver g s tx))).
+Lemma model_step_P cf s tx : c_wguard cf = true ->
+  step_P cf (root s) (contracts s) tx (model_obs s (fst (deliver cf s tx)) (snd (deliver cf s tx))).
 Proof.
-  destruct (deliver g s tx) as [s' ok] eqn:D. simpl.
+  intro Hg.
+  destruct (deliver cf s tx) as [s' ok] eqn:D. simpl.
   unfold step_P, model_obs; simpl.
-  split; [|split; [|split; [|split; [|split; [|split; [|split]]]]]].
-  - intro Hk. subst ok. pose proof (deliver_rejected g s tx) as Hr. rewrite D in Hr. simpl in Hr.
+  split; [|split; [|split; [|split; [|split; [|split; [|split; [|split; [|split]]]]]]]].
+  - intro Hk. subst ok. pose proof (deliver_rejected cf s tx) as Hr. rewrite D in Hr. simpl in Hr.
     rewrite (Hr eq_refl). unfold unchanged; simpl. rewrite !Nat.eqb_refl.
     repeat split; auto. apply sudoers_eqb_spec. split; auto.
   - intro Hc.
     assert (Hne : ~ same_sudoers s' s).
     { intros [H1 H2]. destruct Hc as [Hc|[Hc|Hc]]; try congruence.
       assert (sudoers_eqb s s' = true) by (apply sudoers_eqb_spec; split; auto). congruence. }
-    pose proof (deliver_sudoers_change g s tx) as H. rewrite D in H. simpl in H.
+    pose proof (deliver_sudoers_change cf s tx) as H. rewrite D in H. simpl in H.
     destruct (H Hne) as [_ Hex]. exact Hex.
-  - intro Hk. subst ok. apply deliver_ok in D as [_ R]. apply run_msgs_flatten in R.
+  - intro Hk. subst ok. apply deliver_ok in D as (_ & _ & R). apply run_msgs_flatten in R.
     apply run_leaves_effect. exact R.
   - intros m l Htx Hl Hok. subst tx ok.
     apply single_leaf_leaves in Hl as [Hl1 Hl2].
-    destruct (deliver_each_leaf_authorised g s [m] s' D [] l []) as (s1 & H1 & Ha).
+    destruct (deliver_each_leaf_authorised cf s [m] s' D [] l []) as (s1 & H1 & Ha).
     { simpl. rewrite app_nil_r. exact Hl1. }
     simpl in H1. inversion H1; subst. exact Ha.
-  - intros l Htx Hleaf Ha. subst tx.
+  - intros l Htx Hleaf Hnc Ha. subst tx.
     destruct (authorised_handle s l Hleaf Ha) as [sl Hs].
-    unfold deliver in D. simpl in D. rewrite (exec_leaf g s l Hleaf), Hs in D. inversion D; auto.
+    unfold deliver, signable in D. cbn [forallb] in D. rewrite Hnc in D. cbn [negb andb] in D.
+    cbn [run_msgs] in D. rewrite (exec_leaf cf s l Hleaf), Hs in D. inversion D; auto.
+  - intro Hk. subst ok. eapply deliver_well_authorised; eauto.
+  - intros sd c l Htx Hown Hsd Hleaf Hsg Ha. subst tx.
+    destruct (authorised_handle s l Hleaf Ha) as [sl Hs].
+    unfold deliver, signable in D. cbn [forallb signer] in D. rewrite Hsd in D. cbn [negb andb] in D.
+    cbn [run_msgs] in D. rewrite exec_Wasm, Hown in D. cbn [dispatch] in D.
+    unfold wasm_ok in D. apply Nat.eqb_eq in Hsg. rewrite Hsg in D. cbn [orb] in D.
+    rewrite (exec_leaf cf s l Hleaf), Hs in D. inversion D; auto.
   - intro Hk. apply Nat.eqb_neq in Hk.
     destruct ok.
-    + apply deliver_ok in D as [_ R]. apply run_msgs_flatten in R.
+    + apply deliver_ok in D as (_ & _ & R). apply run_msgs_flatten in R.
       eapply (run_leaves_store_change writes_oracle w_oracle); eauto.
       intros s0 m s0' Hh Hw. destruct (handle_leaf_frame _ _ _ Hh) as (_ & H2 & _). auto.
-    + pose proof (deliver_rejected g s tx) as Hr. rewrite D in Hr. simpl in Hr. rewrite (Hr eq_refl) in Hk. congruence.
+    + pose proof (deliver_rejected cf s tx) as Hr. rewrite D in Hr. simpl in Hr. rewrite (Hr eq_refl) in Hk. congruence.
   - intro Hk. apply Nat.eqb_neq in Hk.
     destruct ok.
-    + apply deliver_ok in D as [_ R]. apply run_msgs_flatten in R.
+    + apply deliver_ok in D as (_ & _ & R). apply run_msgs_flatten in R.
       eapply (run_leaves_store_change writes_infl w_infl); eauto.
       intros s0 m s0' Hh Hw. destruct (handle_leaf_frame _ _ _ Hh) as (_ & _ & H3 & _). auto.
-    + pose proof (deliver_rejected g s tx) as Hr. rewrite D in Hr. simpl in Hr. rewrite (Hr eq_refl) in Hk. congruence.
+    + pose proof (deliver_rejected cf s tx) as Hr. rewrite D in Hr. simpl in Hr. rewrite (Hr eq_refl) in Hk. congruence.
   - intro Hk. apply Nat.eqb_neq in Hk.
     destruct ok.
-    + apply deliver_ok in D as [_ R]. apply run_msgs_flatten in R.
+    + apply deliver_ok in D as (_ & _ & R). apply run_msgs_flatten in R.
       eapply (run_leaves_store_change writes_meta w_meta); eauto.
       intros s0 m s0' Hh Hw. destruct (handle_leaf_frame _ _ _ Hh) as (_ & _ & _ & H4). auto.
-    + pose proof (deliver_rejected g s tx) as Hr. rewrite D in Hr. simpl in Hr. rewrite (Hr eq_refl) in Hk. congruence.
+    + pose proof (deliver_rejected cf s tx) as Hr. rewrite D in Hr. simpl in Hr. rewrite (Hr eq_refl) in Hk. congruence.
 Qed.
 
-Lemma model_satisfies_P g : forall h s, P (root s) (contracts s) (model_trace g s h).
+Lemma model_satisfies_P cf : c_wguard cf = true ->
+  forall h s, P cf (root s) (contracts s) (model_trace cf s h).
 Proof.
-  induction h as [|tx r IH]; intro s; simpl; auto.
-  pose proof (model_step_P g s tx) as HS.
-  destruct (deliver g s tx) as [s' ok]. simpl in *. split; auto.
+  intro Hg. induction h as [|tx r IH]; intro s; simpl; auto.
+  pose proof (model_step_P cf s tx Hg) as HS.
+  destruct (deliver cf s tx) as [s' ok]. simpl in *. split; auto.
 Qed.
+
+(** the trace property is not an artefact of the guard switch: the unguarded variant's own trace of
+    the spoof tx is flagged by the checker *)
+Example Pb_flags_unguarded_variant :
+  Pb (mk_cfg [] [(7, 3)]) 0 [1] (model_trace unguarded_cfg (mk_st 0 [1]) [spoof_tx]) = false.
+Proof. vm_compute. reflexivity. Qed.
 
 (* ------------------------------------------------------------------ non-vacuity *)
 
-Definition ex_state : st := mk_st 0 [1; 2].
-Definition ex_grants : list grant := [{| g_granter := 0; g_grantee := 3; g_kind := KGated GOracle |}].
+Definition ex_state : st := mk_st 0 [1; 2; 6].
+Definition ex_cfg : cfg :=
+  mk_cfg [{| g_granter := 0; g_grantee := 3; g_kind := KGated GOracle |};
+          {| g_granter := 6; g_grantee := 5; g_kind := KGated GMeta |}]
+         [(6, 3); (7, 3)].
 Definition ex_history : list (list msg) :=
-  [ [Gated GOracle 1 true];                                  (* listed contract: accepted *)
+  [ [Gated GOracle 1 true];                                  (* listed account: accepted *)
     [EditSudoers Remove 0 [1] true];                         (* root removes it *)
     [Gated GOracle 1 true];                                  (* stale: rejected *)
+    [Wasm 3 6 [Gated GInflEdit 6 true]];                     (* listed CONTRACT dispatches: accepted *)
+    [Wasm 3 7 [Gated GInflEdit 7 true]];                     (* unlisted contract: rejected *)
+    [Wasm 3 7 [Gated GInflEdit 6 true]];                     (* contract 7 in the name of 6: rejected *)
+    [Wasm 3 7 [Exec 0 [EditSudoers Add 0 [7] true]]];        (* spoofed grantee: rejected *)
+    [Wasm 3 7 [Exec 6 [Gated GMeta 6 true]]];                (* spoofed grantee = listed contract: rejected *)
+    [Exec 5 [Gated GMeta 6 true]];                           (* the listed contract lent its authority: accepted *)
+    [Wasm 2 6 [Gated GMeta 6 true]];                         (* not the contract's owner: rejected *)
+    [Gated GMeta 6 true];                                    (* nobody can sign for a contract: rejected *)
     [ChangeRoot 0 4];                                        (* hand-over *)
     [Gated GMeta 0 true];                                    (* former root: rejected *)
     [Exec 3 [Gated GOracle 0 true]];                         (* grant from a former root is worth nothing *)
     [EditSudoers Add 4 [5] true; Gated GInflToggle 3 true];  (* second message fails: add rolled back *)
     [Gated GInflToggle 5 true];                              (* so 5 is not listed *)
-    [Exec 3 [Exec 4 [Gated GInflEdit 4 true]]] ].            (* nested exec without a grant for MsgExec *)
+    [Exec 3 [Exec 4 [Gated GInflEdit 4 true]]];              (* nested exec without a grant for MsgExec *)
+    [EditSudoers Remove 4 [6] true];
+    [Wasm 3 6 [Gated GInflEdit 6 true]] ].                   (* removed contract: rejected *)
 
 Example history_nonvacuous :
-  snd (run_history ex_grants ex_state ex_history) = [true; true; false; true; false; false; false; false; false]
-  /\ root (fst (run_history ex_grants ex_state ex_history)) = 4
-  /\ contracts (fst (run_history ex_grants ex_state ex_history)) = [2].
+  snd (run_history ex_cfg ex_state ex_history) =
+    [true; true; false; true; false; false; false; false; true; false; false;
+     true; false; false; false; false; false; true; false]
+  /\ root (fst (run_history ex_cfg ex_state ex_history)) = 4
+  /\ contracts (fst (run_history ex_cfg ex_state ex_history)) = [2].
 Proof. vm_compute. auto. Qed.
 
 Example stale_nonvacuous :
-  permitted (mk_st 4 [2]) 0 = false /\ no_grant_to 0 (skipn 4 ex_history) = true /\
-  first_leaf_by 0 (skipn 4 ex_history) = [true; true; false; false; false].
+  permitted (mk_st 4 [2; 6]) 0 = false /\ no_grant_to 0 (skipn 12 ex_history) = true /\
+  first_leaf_by 0 (skipn 12 ex_history) = [true; true; false; false; false; false; false].
 Proof. vm_compute. auto. Qed.
 
 Example exec_with_grant_nonvacuous :
-  exists s', exec_msg ex_grants ex_state (Exec 3 [Gated GOracle 0 true]) = Some s' /\ w_oracle s' = 1.
+  exists s', exec_msg ex_cfg ex_state (Exec 3 [Gated GOracle 0 true]) = Some s' /\ w_oracle s' = 1.
 Proof. eexists. vm_compute. split; reflexivity. Qed.
 
+Example wasm_listed_contract_nonvacuous :
+  exists s', exec_msg ex_cfg ex_state (Wasm 3 6 [Exec 6 [Gated GOracle 6 true]; Gated GMeta 6 true]) = Some s'
+             /\ w_oracle s' = 1 /\ w_meta s' = 1.
+Proof. eexists. vm_compute. repeat split; reflexivity. Qed.
+
 Example Pb_accepts_model_trace_nonvacuous :
-  Pb (root ex_state) (contracts ex_state) (model_trace ex_grants ex_state ex_history) = true.
+  Pb ex_cfg (root ex_state) (contracts ex_state) (model_trace ex_cfg ex_state ex_history) = true.
 Proof. vm_compute. reflexivity. Qed.
 
-(** the checker is not trivially true: an accepted gated message from a stranger is flagged *)
+(** the checker is not trivially true: an accepted gated message from a stranger is flagged, so is an
+    accepted contract-dispatched exec with a spoofed grantee, so is a refused dispatch by a listed contract *)
 Example Pb_rejects_bad_trace :
-  Pb 0 [1] [([Gated GOracle 5 true],
+  Pb ex_cfg 0 [1] [([Gated GOracle 5 true],
              {| o_ok := true; o_root := 0; o_contracts := [1]; o_same_sudo := true;
                 o_same_oracle := false; o_same_infl := true; o_same_meta := true |})] = false
-  /\ Pb 0 [1] [([Gated GOracle 5 true],
+  /\ Pb ex_cfg 0 [1] [([Gated GOracle 5 true],
              {| o_ok := false; o_root := 0; o_contracts := [1]; o_same_sudo := true;
                 o_same_oracle := false; o_same_infl := true; o_same_meta := true |})] = false
-  /\ Pb 0 [1] [([EditSudoers Add 1 [5] true],
+  /\ Pb ex_cfg 0 [1] [([EditSudoers Add 1 [5] true],
              {| o_ok := true; o_root := 0; o_contracts := [1; 5]; o_same_sudo := false;
+                o_same_oracle := true; o_same_infl := true; o_same_meta := true |})] = false
+  /\ Pb ex_cfg 0 [1] [([Wasm 3 7 [Exec 0 [Gated GOracle 0 true]]],
+             {| o_ok := true; o_root := 0; o_contracts := [1]; o_same_sudo := true;
+                o_same_oracle := false; o_same_infl := true; o_same_meta := true |})] = false
+  /\ Pb ex_cfg 0 [6] [([Wasm 3 6 [Gated GOracle 6 true]],
+             {| o_ok := false; o_root := 0; o_contracts := [6]; o_same_sudo := true;
                 o_same_oracle := true; o_same_infl := true; o_same_meta := true |})] = false.
 Proof. vm_compute. auto. Qed.
